@@ -548,7 +548,17 @@ static void do_proof(World &W, const ProofSpec &ps_in, const Fault &f, bool chun
 	}
 	if (pos.empty()) return;
 	std::pair<int, size_t> target = pos[(size_t)f.a % pos.size()];
-	int mk = (int)(f.b % 4); // 0 +1, 1 zero, 2 swap with next line of the direction, 3 structured token
+	int mk = (int)(f.b % 5); // 0 +1, 1 zero, 2 swap with next line of the direction, 3 structured token, 4 out of range
+	if (mk == 4)
+	{
+		// value+q on the response of the equality-of-logarithms proofs and value+p on the transmitted
+		// group elements of the decryption proof: positions where the verifier code states the range
+		std::vector<std::pair<int, size_t> > p0;
+		for (size_t i = 0; i < pos.size(); i++) if (pos[i].first == 0) p0.push_back(pos[i]);
+		if (!(ps.kind == K_VMASK || ps.kind == K_REMASK || ps.kind == K_DECRYPT) || p0.empty()) mk = 0;
+		else if (ps.kind == K_DECRYPT && (f.c % 3) != 0 && p0.size() >= 3) { target = p0[(size_t)(f.c % 3) - 1]; mk = 5; }
+		else target = p0.back();
+	}
 	if (f.type == 5)
 	{
 		// truncation (the sender goes away in the middle of a line): only prover->verifier lines are
@@ -570,6 +580,11 @@ static void do_proof(World &W, const ProofSpec &ps_in, const Fault &f, bool chun
 			if (mk == 10) { cut = true; fired = true; size_t keep = line.empty() ? 0 : (size_t)f.c % line.size(); if (keep) out.push_back(line.substr(0, keep)); return; }
 			if (mk == 11) { if (resize_stacksecret(line, m)) { out.push_back(m); fired = true; return; } }
 			else if (mk == 2) { pending = line; have_pending = true; return; }
+			else if (mk == 4 || mk == 5)
+			{
+				Z v; if (mpz_set_str(v, line.c_str(), TMCG_MPZ_IO_BASE) == 0)
+				{ mpz_add(v, v, mk == 4 ? W.P[0].vtmf->q : W.P[0].vtmf->p); out.push_back(v.io()); fired = true; return; }
+			}
 			else if (mk <= 1 && mutate_int_line(line, mk, m) && m != line) { out.push_back(m); fired = true; return; }
 			else if (mutate_structured(line, (size_t)f.c, m)) { out.push_back(m); fired = true; return; }
 		}
@@ -584,7 +599,7 @@ static void do_proof(World &W, const ProofSpec &ps_in, const Fault &f, bool chun
 	W.S.party[ps.prover] = snapP; W.S.party[ps.verifier] = snapV;
 	Outcome o = run_session(W, ps.prover, ps.verifier, prover_role(W, ps, false), verifier_role(W, ps, &st), relay, chunked);
 	if (!fired) return;
-	W.res.cnt[mk == 10 ? "fault.mitm_trunc" : (mk == 11 ? "fault.mitm_resize_secret" : (mk == 2 ? "fault.mitm_swap" : "fault.mitm_mut"))]++;
+	W.res.cnt[mk == 10 ? "fault.mitm_trunc" : (mk == 11 ? "fault.mitm_resize_secret" : (mk == 2 ? "fault.mitm_swap" : (mk >= 4 ? "fault.mitm_out_of_range" : "fault.mitm_mut")))]++;
 	if (o.vret == 1)
 	{
 		std::ostringstream d; d << "line " << target.second << " of direction " << (target.first ? "verifier->prover" : "prover->verifier")
@@ -851,10 +866,14 @@ static RunResult cards_execute(const Plan &plan)
 			if (m.out.size() != n) { W.violate("C02", "mix_changes_size", "mixed stack has another size"); break; }
 			if (lie && cyclic)
 			{
+				// (judged on the ciphertexts: permuting identical cards - an open stack has them - can equal a
+				// rotation although the index vector is not cyclic; then the statement is true)
 				bool is_rot = true;
-				for (size_t i = 1; i < n; i++) if (m.ss[i].first != (m.ss[0].first + i) % n) is_rot = false;
-				if (is_rot) m.really_cyclic = true; // the random permutation happened to be a rotation
-				else { W.mixes.push_back(m); W.res.cnt["fault.noncyclic_as_rotation"]++; W.any_fault = true; continue; } // not adopted by the table
+				for (size_t i = 1; i < n; i++) if (!(m.in[m.ss[i].first] == m.in[(m.ss[0].first + i) % n])) is_rot = false;
+				// if the permuted stack happens to equal a rotated one the statement is true while the witness
+				// is still no rotation witness: neither completeness nor soundness speaks about that - dropped
+				if (!is_rot) { W.mixes.push_back(m); W.res.cnt["fault.noncyclic_as_rotation"]++; W.any_fault = true; }
+				continue; // never adopted by the table
 			}
 			std::vector<size_t> nt(n);
 			for (size_t i = 0; i < n; i++) nt[i] = sr.types[m.ss[i].first];
@@ -862,6 +881,18 @@ static RunResult cards_execute(const Plan &plan)
 			W.mixes.push_back(m);
 			roundtrip(W, m.out, "stack"); roundtrip(W, m.ss, "stacksecret");
 			W.res.cnt[cyclic ? "probe.rotations" : "probe.shuffles"]++;
+			if (n >= 2)
+			{
+				// a received secret whose index component is no bijection must be refused on import
+				TMCG_StackSecret<VTMF_CardSecret> bad;
+				size_t a = (size_t)op.arg(1) % n, b = (a + 1 + (size_t)op.arg(0) % (n - 1)) % n;
+				for (size_t i = 0; i < n; i++) bad.push(i == a ? m.ss[b].first : m.ss[i].first, m.ss[i].second);
+				std::ostringstream o; o << bad;
+				TMCG_StackSecret<VTMF_CardSecret> imp;
+				W.res.cnt["fault.nonbijective_secret_import"]++;
+				if (imp.import(o.str()))
+					W.violate("C02", "import_accepts_non_bijection", "stack secret with a repeated index was accepted on import");
+			}
 		}
 		else if (op.kind == "openstack")
 		{
